@@ -27,9 +27,10 @@ META = {
         "and every setattr; C08.5 the validation pattern, parsed to its regex AST, rejects exactly the names containing a "
         "code point outside [A-Za-z0-9_.] (no flags, no `$` that tolerates a trailing newline), and the rejection raises "
         "TranslationError; C08.6 the server's loads call sits inside the catch-all parse guard that answers -32700 and "
-        "cannot reach the dispatch.; C08.7 (shared) the -32700 reply to a rejected payload can always be encoded (imported C02.6), and servers / proxies keep the caller's Config object itself, so switching use_jsonclass off on it afterwards is effective (imported C07.7)"),
+        "cannot reach the dispatch.; C08.7 (shared) the -32700 reply to a rejected payload can always be encoded (imported C02.6), and servers / proxies keep the caller's Config object itself, so switching use_jsonclass off on it afterwards is effective (imported C07.7) C08.8 (imported from C05.4) the -32700 fault built for a rejected payload carries a message derived from the exception and no request-derived data object: the reply can always be serialised, so the rejection really reaches the client as -32700."),
     "does_not_decide": "that nothing is imported as an observed event; behaviour of __import__ on valid-looking names.",
-    "rules": {"C08.7": "imported C02.6, C07.7", "C08.1": "who-may-call + dominance", "C08.2": "provenance of the config argument", "C08.3": "who-may-call on dynamic-code primitives",
+    "rules": {"C08.8": "imported C05.4 (error message / data of the dispatcher faults)",
+              "C08.7": "imported C02.6, C07.7", "C08.1": "who-may-call + dominance", "C08.2": "provenance of the config argument", "C08.3": "who-may-call on dynamic-code primitives",
               "C08.4": "dominance in jsonclass.load", "C08.5": "regex AST analysis (re._parser) vs spec table A.4", "C08.6": "handler structure + reachability"},
     "assumptions": ["re.sub(P, '', s) != s iff s contains a match of P"],
 }
@@ -346,6 +347,11 @@ def check(ck):
     _cm8.import_rules(ck, _c02, {"C02.6": "C08.7"})
     _cm8.import_rules(ck, _c07.rule_c07_7, {"C07.7": "C08.7"})
     ck.floor("C08.7", 8)
+
+    # ---- C08.8 the rejection can be sent (shared with C05.4) ----------------------------------------------------------------------
+    from rules import c05 as _c05d
+    _cm8.import_rules(ck, _c05d, {"C05.4": "C08.8"})
+    ck.floor("C08.8", 4)
 
 
 def _straight(g, nid, limit=12):
